@@ -265,8 +265,9 @@ class FileSystem(object):
                         return re.compile(r'$X')
                 return expr
 
-        # Remove '../', etc.
-        path = os.path.normpath(path)
+        # Remove '../', etc. A relative path is relative to the sandbox root,
+        # so that leading '..' cannot climb above it
+        path = os.path.normpath(os.path.join(path_sep, path))
 
         # Passthrough
         for passthrough in self.passthrough:
